@@ -107,6 +107,22 @@ class State:
                                 nf = subst(bf, mp)
                                 if nf not in facts:
                                     new.add(nf)
+            # x == y and y == <constant>  =>  x == <constant> (chained comparisons a == b == "root")
+            eqs = [f for f in facts if f[0] == "eq"]
+            consts = {}
+            for f in eqs:
+                if is_const(f[2]) and not is_const(f[1]):
+                    consts.setdefault(f[1], f[2])
+                elif is_const(f[1]) and not is_const(f[2]):
+                    consts.setdefault(f[2], f[1])
+            if consts:
+                for f in eqs:
+                    a, b = f[1], f[2]
+                    if is_const(a) or is_const(b):
+                        continue
+                    for x, y in ((a, b), (b, a)):
+                        if y in consts and ("eq", x, consts[y]) not in facts:
+                            new.add(("eq", x, consts[y]))
             if not new:
                 break
             facts |= new
